@@ -97,6 +97,13 @@ CLAIMED["C20"] = {
     "design": "4/C20",
 }
 
+CLAIMED["C17"] = {
+    "text": "Lean theorems over the listing model: a recipe is listed iff it is in the (enabled-only) table and public, in sorted and in source order; --list, the JSON dump's public recipes and the module's part of --summary name the same recipes in the same order; --unsorted lists the same set; the chooser offers exactly the public recipes needing no arguments; every private name is still resolved by `just NAME`; `--show NAME` shows exactly what `just NAME` runs for recipes and aliases incl. aliases into submodules (repaired by a fix: commit; the old disagreement is a proved witness). Correspondence: random justfiles (public/[private]/underscore recipes, OS attributes, groups, docs, all parameter kinds, imports in root and in submodules, submodules, public/private aliases to own and submodule recipes) with --summary, --list (sorted/unsorted), JSON dump (incl. namepaths), --choose candidates and, for every name, --show vs the recipe `just NAME` actually runs (unique body marker), plus alias annotations.",
+    "note": "Trusted: Lean kernel; Listing model (tied by the differential run); --list output parsed by indentation. Known finding: --show prints `alias a := name` without the submodule path. Aliases of private recipes and aliases into submodules are not annotated in --list (observation).",
+    "technique": "Lean 4 proof + cross-view differential against the binary",
+    "design": "4/C17",
+}
+
 PENDING = "check not built yet in this session (see DESIGN.md build order); no claim is made"
 
 
